@@ -259,7 +259,43 @@ func runC13(c *Ctx) {
 			return "ok", nil
 		}, Describe: func(idx []int) any { return sub[idx[0]].Name }}
 	c.R.Assume("GC events are explicit (runtime.GC twice) and the process runs with GODEBUG=clobberfree=1 so that a freed object is overwritten deterministically")
-	runScenarios(c, p1, p2, p3, corpusReadback(c, "corpus construction: FrozenView(Freeze())", "Freeze"))
+	// views of frozen bytes written by ANOTHER implementation of the format: chunk forms the library itself would not
+	// choose (a bitmap chunk at the 4096 / 4097 threshold, an array chunk of 4096 values, a run chunk that an array
+	// would beat). Where FrozenView accepts the bytes and the bitmap validates, it is a bitmap like any other: the
+	// three writers must agree on it and reproduce the bytes it was loaded from.
+	var fexecs int64
+	foreign := foreignFrozen()
+	p4 := &explore.Product{Name: "three frozen writers on views of foreign frozen bytes", Dims: []int{len(foreign)}, Deadline: c.Budget(150, 1700), Execs: &fexecs,
+		Run: func(idx []int) (string, *ev.Fail) {
+			fc := foreign[idx[0]]
+			data := spec.EncodeFrozen(fc.Chunks)
+			buf := shapes.Aligned(data)
+			rb := roaring.New()
+			defer runtime.KeepAlive(buf)
+			if err := rb.FrozenView(buf); err != nil {
+				return "rejected", nil // C10 decides what may be rejected
+			}
+			if rb.Validate() != nil {
+				return "not-valid", nil
+			}
+			want := spec.ToSet(fc.Chunks)
+			if got := extract.Of(rb); !got.Equal(want) {
+				return "", fail("FrozenView", "foreign-content", "FrozenView of foreign frozen bytes (%s) validates but holds a different set: %s", fc.Name, diff32(got, want))
+			}
+			fz, f := frozenWriters(rb, &fexecs)
+			if f != nil {
+				f.What = "on a view of foreign frozen bytes (" + fc.Name + "): " + f.What
+				return "", f
+			}
+			if !bytes.Equal(fz, data) {
+				return "", fail("Freeze", "foreign-reproduce", "Freeze of a view of foreign frozen bytes (%s) differs from the bytes the view was loaded from", fc.Name)
+			}
+			if !bytes.Equal(buf, data) {
+				return "", fail("FrozenView", "buffer-written", "freezing a view wrote to the caller's buffer")
+			}
+			return "accepted", nil
+		}, Describe: func(idx []int) any { return foreign[idx[0]].Name }}
+	runScenarios(c, corpusReadback(c, "corpus construction: FrozenView(Freeze())", "Freeze"), p1, p2, p3, p4)
 	if c.Replay == nil {
 		// a live view must keep validating and keep its contents when the view is the only thing that still refers to
 		// the buffer. Decided in the subprocess cage: check.sh sets GODEBUG=clobberfree=1 for this property, so a freed
@@ -321,4 +357,57 @@ func init() {
 			return "ok"
 		}
 	}
+}
+
+type foreignCase struct {
+	Name   string
+	Chunks []spec.Chunk
+}
+
+// foreignFrozen: chunk lists another implementation may legitimately freeze.
+func foreignFrozen() []foreignCase {
+	stripe := func(n, step int) []uint16 {
+		vs := make([]uint16, n)
+		for i := range vs {
+			vs[i] = uint16(i * step)
+		}
+		return vs
+	}
+	bmOf := func(key uint16, vs []uint16) spec.Chunk {
+		w := make([]uint64, 1024)
+		for _, v := range vs {
+			w[v/64] |= 1 << (v % 64)
+		}
+		return spec.Chunk{Key: key, Kind: spec.KBitmap, Words: w, Card: len(vs)}
+	}
+	arr := func(key uint16, vs []uint16) spec.Chunk {
+		return spec.Chunk{Key: key, Kind: spec.KArray, Values: vs, Card: len(vs)}
+	}
+	run := func(key uint16, rs ...[2]uint16) spec.Chunk { return spec.Chunk{Key: key, Kind: spec.KRun, Runs: rs} }
+	var out []foreignCase
+	for _, n := range []int{4095, 4096, 4097, 5000, 65535} {
+		step := 3
+		if n > 20000 {
+			step = 1
+		}
+		out = append(out,
+			foreignCase{fmt.Sprintf("bitmap chunk with %d values", n), []spec.Chunk{bmOf(1, stripe(n, step))}},
+			foreignCase{fmt.Sprintf("bitmap chunk with %d values between an array and a run chunk", n), []spec.Chunk{arr(0, []uint16{1, 5, 65535}), bmOf(1, stripe(n, step)), run(2, [2]uint16{10, 5000})}},
+		)
+	}
+	for _, n := range []int{1, 4095, 4096} {
+		out = append(out, foreignCase{fmt.Sprintf("array chunk with %d values", n), []spec.Chunk{arr(7, stripe(n, 5)), run(9, [2]uint16{0, 65535})}})
+	}
+	out = append(out,
+		foreignCase{"run chunk of one short run (an array would be smaller)", []spec.Chunk{run(3, [2]uint16{7, 0})}},
+		foreignCase{"run chunk of 3000 runs (a bitmap would be smaller)", []spec.Chunk{func() spec.Chunk {
+			var rs [][2]uint16
+			for i := 0; i < 3000; i++ {
+				rs = append(rs, [2]uint16{uint16(i * 20), 3})
+			}
+			return run(4, rs...)
+		}()}},
+		foreignCase{"two bitmap chunks, two array chunks, two run chunks interleaved", []spec.Chunk{bmOf(0, stripe(5000, 2)), arr(1, stripe(10, 7)), run(2, [2]uint16{5, 10}, [2]uint16{100, 0}), bmOf(3, stripe(4096, 4)), arr(4, stripe(4096, 2)), run(5, [2]uint16{0, 65535})}},
+	)
+	return out
 }
